@@ -19,6 +19,13 @@ PROPS = {
                   {"checks": 300, "steps": 60, "shards": 14, "timeout": 5000, "shrinktime": "120s"}),
         ],
     },
+    "C20": {
+        "level": "exploration",
+        "jobs": [
+            rapid("stop", "^TestC20$", {"checks": 25, "shards": 8, "timeout": 900, "shrinktime": "20s"},
+                  {"checks": 400, "shards": 14, "timeout": 6000, "shrinktime": "60s"}),
+        ],
+    },
     "C06": {
         "level": "fault_enumeration",
         "jobs": [
